@@ -17,7 +17,7 @@ INVALID = ['!dupsym', '!dupsym2', '!empty', '!nonstr', '!S2', '!V2',
            '!B1again', '!othertype', '!otherdim', '!wrongbase',
            '!wrongcount', '!B3dupref', '!derivebase', '!NB2', '!P2',
            '!dupderive', '!dupterm', '!Pdupsym', '!Sdupsym', '!Pnum',
-           '!Punits', '!numterm', '!numonly']
+           '!Punits', '!numterm', '!numonly', '!zero', '!zeroterm']
 QUICK_INVALID = ['!dupsym', '!S2', '!othertype', '!otherdim', '!wrongbase',
                  '!empty', '!dupderive', '!dupterm']
 
